@@ -1,12 +1,612 @@
-//! C07 - not built yet.
-use crate::run::Ctx;
-use serde_json::Value;
+//! C07 - rounding picks the neighbouring multiple prescribed by the mode.
 
-pub fn run(_ctx: &mut Ctx) {
-    eprintln!("property C07 has no check yet");
-    std::process::exit(2);
+use crate::chk;
+use crate::conv::*;
+use crate::gen;
+use crate::refm::civil::*;
+use crate::refm::dateadd::Dt;
+use crate::refm::dur::{balance_time, U, UNITS};
+use crate::refm::fmt::{self, Prec};
+use crate::refm::round::*;
+use crate::run::*;
+use crate::tzp::TableProvider;
+use proptest::prelude::*;
+use serde::{Deserialize, Serialize};
+use serde_json::Value;
+use temporal_rs::error::ErrorKind;
+use temporal_rs::options::ToStringRoundingOptions;
+use temporal_rs::parsers::Precision;
+use temporal_rs::verif_hooks as hooks;
+use temporal_rs::{Instant, TimeZone, ZonedDateTime};
+
+const DAY: i128 = NS_PER_DAY;
+
+// ------------------------------------------------------------------------------------------
+// hook sweep (exhaustive over the stated grid)
+
+#[derive(Serialize, Deserialize, Debug, Clone)]
+pub struct HookCase {
+    pub float: bool,
+    pub num: i128,
+    pub den: i128,
+    pub q: i128,
+    pub mode: Mode,
+}
+pub struct HookSub;
+
+fn classify(num: i128, den: i128, q: i128) -> (&'static str, bool) {
+    let dq = den * q;
+    let rem = num.rem_euclid(dq);
+    if rem == 0 {
+        ("multiple", false)
+    } else if 2 * rem == dq {
+        ("tie", true)
+    } else if (2 * rem - dq).abs() <= 2 * den {
+        ("tie+-1", true)
+    } else {
+        ("off-multiple", true)
+    }
 }
 
-pub fn replay(_ctx: &mut Ctx, _sub: &str, _case: &Value) -> bool {
-    false
+impl SubCheck for HookSub {
+    type Case = HookCase;
+    fn name(&self) -> &'static str {
+        "hook"
+    }
+    fn eval(&self, c: &HookCase) -> Outcome {
+        let (cl, nt) = classify(c.num, c.den, c.q);
+        let mut o = Outcome::pass().class(cl).nontrivial(nt);
+        if c.q % 2 == 1 {
+            o = o.class("odd-increment");
+        }
+        if c.num < 0 {
+            o = o.class("negative");
+        }
+        let want = round_rational(c.num, c.den, c.q, c.mode);
+        let got = if c.float {
+            hooks::round_f64(c.num as f64 / c.den as f64, c.q as u128, conv_mode(c.mode))
+        } else {
+            hooks::round_i128(c.num, c.q as u128, conv_mode(c.mode))
+        };
+        match got {
+            Ok(g) => {
+                let sig = if c.float { "C07/hook/f64/mismatch" } else { "C07/hook/i128/mismatch" };
+                chk!(o, g == want, sig, want, g);
+            }
+            Err(e) => o = o.fail("C07/hook/error", want.to_string(), err_str(&e)),
+        }
+        o
+    }
+}
+fn conv_mode(m: Mode) -> temporal_rs::options::RoundingMode {
+    mode(m)
+}
+
+fn hook_cases() -> Vec<HookCase> {
+    let mut v = vec![];
+    let mut qs: Vec<i128> = (1..=64).collect();
+    qs.extend([100, 125, 250, 500, 1000, 60_000_000_000, 3_600_000_000_000, DAY]);
+    for &q in &qs {
+        let xs: Vec<i128> = if q <= 1000 {
+            (-3 * q - 2..=3 * q + 2).collect()
+        } else {
+            let mut xs = vec![];
+            for k in -3..=3i128 {
+                for d in [0, 1, -1, q / 2, q / 2 + 1, q / 2 - 1, -(q / 2), q / 3, 12345] {
+                    xs.push(k * q + d);
+                }
+            }
+            xs
+        };
+        for &x in &xs {
+            for &m in MODES.iter() {
+                v.push(HookCase { float: false, num: x, den: 1, q, mode: m });
+            }
+        }
+        if q <= 64 {
+            for den in [1i128, 2, 4] {
+                for k in (-3 * q - 2) * den..=(3 * q + 2) * den {
+                    for &m in MODES.iter() {
+                        v.push(HookCase { float: true, num: k, den, q, mode: m });
+                    }
+                }
+            }
+        }
+    }
+    v
+}
+
+// ------------------------------------------------------------------------------------------
+// public entry points
+
+#[derive(Serialize, Deserialize, Debug, Clone, Copy, PartialEq, Eq)]
+pub enum Op {
+    TimeRound,
+    DateTimeRound,
+    InstantRound,
+    TimeUntil,
+    TimeSince,
+    InstantUntil,
+    InstantSince,
+    DateTimeUntil,
+    DateTimeSince,
+    TimeString,
+    DateTimeString,
+    InstantString,
+    ZonedString,
+    DurationString,
+}
+
+#[derive(Serialize, Deserialize, Debug, Clone)]
+pub struct PubCase {
+    pub op: Op,
+    /// primary value: ns of day / epoch ns; for date-times (day, ns) = (a_day, a)
+    pub a: i128,
+    pub a_day: i64,
+    /// second operand for differences
+    pub b: i128,
+    pub b_day: i64,
+    pub unit: U,
+    pub inc: u32,
+    pub mode: Mode,
+    /// fractional digits for the *String ops when `digits` is Some; otherwise `unit` is smallestUnit
+    pub digits: Option<u8>,
+    /// fixed offset (minutes) for ZonedString
+    pub offset_min: i32,
+}
+pub struct PubSub;
+
+fn to_string_opts(c: &PubCase) -> ToStringRoundingOptions {
+    let mut o = ToStringRoundingOptions::default();
+    o.rounding_mode = Some(mode(c.mode));
+    match c.digits {
+        Some(d) => o.precision = Precision::Digit(d),
+        None => o.smallest_unit = Some(unit(c.unit)),
+    }
+    o
+}
+fn string_prec(c: &PubCase) -> Prec {
+    match c.digits {
+        Some(d) => Prec::Digits(d),
+        None => match c.unit {
+            U::Minute => Prec::Minute,
+            U::Second => Prec::Digits(0),
+            U::Millisecond => Prec::Digits(3),
+            U::Microsecond => Prec::Digits(6),
+            _ => Prec::Digits(9),
+        },
+    }
+}
+
+/// mode-free invariant: r is x or one of the two adjacent multiples
+fn is_neighbour(x: i128, q: i128, r: i128) -> bool {
+    let (lo, hi) = neighbours(x, q);
+    r == lo || r == hi
+}
+
+impl SubCheck for PubSub {
+    type Case = PubCase;
+    fn name(&self) -> &'static str {
+        "public"
+    }
+    fn eval(&self, c: &PubCase) -> Outcome {
+        let q: i128 = match c.op {
+            Op::TimeString | Op::DateTimeString | Op::InstantString | Op::ZonedString | Op::DurationString => fmt::prec_increment(string_prec(c)),
+            _ => c.inc as i128 * c.unit.ns(),
+        };
+        let mut o = Outcome::pass();
+        let opname: &'static str = match c.op {
+            Op::TimeRound => "time.round",
+            Op::DateTimeRound => "datetime.round",
+            Op::InstantRound => "instant.round",
+            Op::TimeUntil => "time.until",
+            Op::TimeSince => "time.since",
+            Op::InstantUntil => "instant.until",
+            Op::InstantSince => "instant.since",
+            Op::DateTimeUntil => "datetime.until",
+            Op::DateTimeSince => "datetime.since",
+            Op::TimeString => "time.string",
+            Op::DateTimeString => "datetime.string",
+            Op::InstantString => "instant.string",
+            Op::ZonedString => "zoned.string",
+            Op::DurationString => "duration.string",
+        };
+        o = o.class(opname);
+        // the exact value being rounded
+        let x: i128 = match c.op {
+            Op::TimeRound | Op::DateTimeRound | Op::TimeString | Op::DateTimeString => c.a,
+            Op::InstantRound | Op::InstantString => c.a,
+            Op::ZonedString => c.a, // epoch ns; rounding happens on the instant
+            Op::TimeUntil => c.b - c.a,
+            Op::TimeSince => c.a - c.b,
+            Op::InstantUntil => c.b - c.a,
+            Op::InstantSince => c.a - c.b,
+            Op::DateTimeUntil => (c.b_day as i128 * DAY + c.b) - (c.a_day as i128 * DAY + c.a),
+            Op::DateTimeSince => (c.a_day as i128 * DAY + c.a) - (c.b_day as i128 * DAY + c.b),
+            Op::DurationString => c.a,
+        };
+        let (cl, nt) = classify(x, 1, q);
+        o = o.class(cl).nontrivial(nt);
+        if q % 2 == 1 && q > 1 {
+            o = o.class("odd-increment");
+        }
+        if x < 0 {
+            o = o.class("negative");
+        }
+        let want = match c.op {
+            // values on the epoch line round as if positive (Temporal: RoundTemporalInstant)
+            Op::InstantRound | Op::InstantString | Op::ZonedString => round_as_if_positive(x, q, c.mode),
+            // times of day: RoundTime rounds the quantity counted from the start of the parent unit
+            // (same multiples; only the parity used by halfEven ties differs from a count from midnight)
+            Op::TimeRound | Op::DateTimeRound | Op::TimeString | Op::DateTimeString => {
+                let u = match c.op {
+                    Op::TimeRound | Op::DateTimeRound => c.unit,
+                    _ => match string_prec(c) {
+                        Prec::Minute => U::Minute,
+                        Prec::Digits(0) => U::Second,
+                        Prec::Digits(1..=3) => U::Millisecond,
+                        Prec::Digits(4..=6) => U::Microsecond,
+                        _ => U::Nanosecond,
+                    },
+                };
+                let parent = match u {
+                    U::Minute => 3_600_000_000_000,
+                    U::Second => 60_000_000_000,
+                    U::Millisecond => 1_000_000_000,
+                    U::Microsecond => 1_000_000,
+                    U::Nanosecond => 1_000,
+                    _ => DAY,
+                };
+                let base = x - x.rem_euclid(parent);
+                base + round_int(x - base, q, c.mode)
+            }
+            _ => round_int(x, q, c.mode),
+        };
+        if c.op == Op::DurationString && c.digits.is_none() && c.unit == U::Minute {
+            // Duration strings do not admit minute precision
+            let d = duration_from_f64s(&[0., 0., 0., 0., 0., 0., 1., 0., 0., 0.]).unwrap();
+            return match d.as_temporal_string(to_string_opts(c)) {
+                Err(e) if e.kind() == ErrorKind::Range => o.class("duration-minute-rejected"),
+                other => o.fail("C07/duration.string/minute-accepted", "RangeError", format!("{:?}", other.map_err(|e| err_str(&e)))),
+            };
+        }
+        macro_rules! fail_kind {
+            ($e:expr, $what:expr) => {
+                return o.fail(format!("C07/{}/{}", opname, $what), format!("{}", want), err_str(&$e))
+            };
+        }
+        match c.op {
+            Op::TimeRound => {
+                let t = plain_time(c.a).expect("valid time");
+                match t.round(unit(c.unit), Some(c.inc as f64), Some(mode(c.mode))) {
+                    Ok(r) => {
+                        let got = time_ns(&r);
+                        let w = want.rem_euclid(DAY);
+                        chk!(o, got == w, format!("C07/{opname}/mismatch"), w, got);
+                        chk!(o, is_neighbour(c.a, q, got) || is_neighbour(c.a, q, got + DAY), format!("C07/{opname}/not-a-neighbour"), neighbours(c.a, q), got);
+                    }
+                    Err(e) => fail_kind!(e, "error"),
+                }
+            }
+            Op::DateTimeRound => {
+                let dt = Dt { day: c.a_day, ns: c.a };
+                let p = plain_datetime(dt).expect("valid datetime");
+                let r = p.round(round_options(None, Some(unit(c.unit)), Some(c.inc), Some(mode(c.mode))));
+                let carry = want.div_euclid(DAY);
+                let wdt = Dt { day: c.a_day + carry as i64, ns: want.rem_euclid(DAY) };
+                match r {
+                    Ok(r) => {
+                        if !wdt.in_range() {
+                            return o.class("leaves-range").nontrivial(true).fail(format!("C07/{opname}/accepted-out-of-range"), "RangeError", format!("{:?}", dt_of(&r)));
+                        }
+                        chk!(o, dt_of(&r) == wdt, format!("C07/{opname}/mismatch"), wdt, dt_of(&r));
+                        if carry != 0 {
+                            o = o.class("carry-into-next-day");
+                        }
+                    }
+                    Err(e) => {
+                        if wdt.in_range() || e.kind() != ErrorKind::Range {
+                            fail_kind!(e, "error");
+                        }
+                        o = o.class("leaves-range").nontrivial(true);
+                    }
+                }
+            }
+            Op::InstantRound => {
+                let i = Instant::try_new(c.a).expect("valid instant");
+                let r = i.round(round_options(None, Some(unit(c.unit)), Some(c.inc), Some(mode(c.mode))));
+                match r {
+                    Ok(r) => {
+                        if !instant_in_range(want) {
+                            return o.fail(format!("C07/{opname}/accepted-out-of-range"), "RangeError", r.as_i128().to_string());
+                        }
+                        chk!(o, r.as_i128() == want, format!("C07/{opname}/mismatch"), want, r.as_i128());
+                        chk!(o, is_neighbour(c.a, q, r.as_i128()), format!("C07/{opname}/not-a-neighbour"), neighbours(c.a, q), r.as_i128());
+                    }
+                    Err(e) => {
+                        if instant_in_range(want) || e.kind() != ErrorKind::Range {
+                            fail_kind!(e, "error");
+                        }
+                        o = o.class("leaves-range");
+                    }
+                }
+            }
+            Op::TimeUntil | Op::TimeSince | Op::InstantUntil | Op::InstantSince | Op::DateTimeUntil | Op::DateTimeSince => {
+                // largest unit: hours for times and date-times (time largest keeps everything on the exact
+                // line), seconds default for instants; we always pass an explicit time largest unit >= smallest
+                let largest = U::Hour.larger_of(c.unit);
+                let st = diff_settings(Some(unit(largest)), Some(unit(c.unit)), Some(c.inc), Some(mode(c.mode)));
+                let r = match c.op {
+                    Op::TimeUntil => plain_time(c.a).unwrap().until(&plain_time(c.b).unwrap(), st),
+                    Op::TimeSince => plain_time(c.a).unwrap().since(&plain_time(c.b).unwrap(), st),
+                    Op::InstantUntil => Instant::try_new(c.a).unwrap().until(&Instant::try_new(c.b).unwrap(), st),
+                    Op::InstantSince => Instant::try_new(c.a).unwrap().since(&Instant::try_new(c.b).unwrap(), st),
+                    Op::DateTimeUntil => plain_datetime(Dt { day: c.a_day, ns: c.a }).unwrap().until(&plain_datetime(Dt { day: c.b_day, ns: c.b }).unwrap(), st),
+                    _ => plain_datetime(Dt { day: c.a_day, ns: c.a }).unwrap().since(&plain_datetime(Dt { day: c.b_day, ns: c.b }).unwrap(), st),
+                };
+                let wd = balance_time(want, largest);
+                match r {
+                    Ok(d) => {
+                        let got = duration_fields(&d);
+                        let wf = wd.to_f64s();
+                        chk!(o, fields_eq(&got, &wf), format!("C07/{opname}/mismatch"), wf, got);
+                    }
+                    Err(e) => {
+                        // a rounded total beyond the duration limit is a RangeError
+                        if crate::refm::dur::reported_valid(&wd) || e.kind() != ErrorKind::Range {
+                            fail_kind!(e, "error");
+                        }
+                        o = o.class("leaves-range");
+                    }
+                }
+            }
+            Op::TimeString => {
+                let t = plain_time(c.a).expect("valid time");
+                match t.to_ixdtf_string(to_string_opts(c)) {
+                    Ok(s) => {
+                        let w = fmt::time(want.rem_euclid(DAY), string_prec(c));
+                        chk!(o, s == w, format!("C07/{opname}/mismatch"), w, s);
+                    }
+                    Err(e) => fail_kind!(e, "error"),
+                }
+            }
+            Op::DateTimeString => {
+                let p = plain_datetime(Dt { day: c.a_day, ns: c.a }).expect("valid datetime");
+                let carry = want.div_euclid(DAY);
+                let wdt = Dt { day: c.a_day + carry as i64, ns: want.rem_euclid(DAY) };
+                match p.to_ixdtf_string(to_string_opts(c), temporal_rs::options::DisplayCalendar::Never) {
+                    Ok(s) => {
+                        if !wdt.in_range() {
+                            return o.fail(format!("C07/{opname}/accepted-out-of-range"), "RangeError", s);
+                        }
+                        let w = fmt::datetime(wdt.day, wdt.ns, string_prec(c));
+                        chk!(o, s == w, format!("C07/{opname}/mismatch"), w, s);
+                    }
+                    Err(e) => {
+                        if wdt.in_range() || e.kind() != ErrorKind::Range {
+                            fail_kind!(e, "error");
+                        }
+                        o = o.class("leaves-range");
+                    }
+                }
+            }
+            Op::InstantString => {
+                let i = Instant::try_new(c.a).expect("valid instant");
+                let prov = TableProvider::utc_only();
+                match i.to_ixdtf_string_with_provider(None, to_string_opts(c), &prov) {
+                    Ok(s) => {
+                        let w = format!("{}Z", fmt::datetime(want.div_euclid(DAY) as i64, want.rem_euclid(DAY), string_prec(c)));
+                        chk!(o, s == w, format!("C07/{opname}/mismatch"), w, s);
+                    }
+                    Err(e) => {
+                        if instant_in_range(want) || e.kind() != ErrorKind::Range {
+                            fail_kind!(e, "error");
+                        }
+                    }
+                }
+            }
+            Op::ZonedString => {
+                let tz = TimeZone::try_from_identifier_str(&fmt::offset_minutes(c.offset_min as i64)).expect("offset zone");
+                let z = ZonedDateTime::try_new(c.a, iso(), tz).expect("valid zoned");
+                let prov = TableProvider::utc_only();
+                let off_ns = c.offset_min as i128 * 60_000_000_000;
+                match z.to_ixdtf_string_with_provider(
+                    temporal_rs::options::DisplayOffset::Never,
+                    temporal_rs::options::DisplayTimeZone::Never,
+                    temporal_rs::options::DisplayCalendar::Never,
+                    to_string_opts(c),
+                    &prov,
+                ) {
+                    Ok(s) => {
+                        let local = want + off_ns;
+                        let w = fmt::datetime(local.div_euclid(DAY) as i64, local.rem_euclid(DAY), string_prec(c));
+                        chk!(o, s == w, format!("C07/{opname}/mismatch"), w, s);
+                    }
+                    Err(e) => {
+                        if instant_in_range(want) || e.kind() != ErrorKind::Range {
+                            fail_kind!(e, "error");
+                        }
+                    }
+                }
+            }
+            Op::DurationString => {
+                // a pure seconds+nanoseconds duration, |a| small enough to be exact in doubles
+                let s = x / 1_000_000_000;
+                let n = x % 1_000_000_000;
+                let mut f = [0.0; 10];
+                f[6] = s as f64;
+                f[9] = n as f64;
+                let d = duration_from_f64s(&f).expect("valid duration");
+                match d.as_temporal_string(to_string_opts(c)) {
+                    Ok(st) => {
+                        let wd = balance_time(want, U::Second);
+                        let w = fmt::duration(&wd, string_prec(c));
+                        chk!(o, st == w, format!("C07/{opname}/mismatch"), w, st);
+                    }
+                    Err(e) => fail_kind!(e, "error"),
+                }
+            }
+        }
+        o
+    }
+}
+
+// ------------------------------------------------------------------------------------------
+// generators
+
+/// admissible increments for round/difference of a unit: proper divisors of the unit's maximum
+fn incs_for(u: U) -> Vec<u32> {
+    gen::divisors_below(u.max_increment().unwrap()).into_iter().map(|x| x as u32).collect()
+}
+/// increments admissible for Instant::round: divisors of units-per-day (inclusive), <= 1e9
+fn instant_incs(u: U) -> Vec<u32> {
+    let per_day = DAY / u.ns();
+    let mut v = vec![];
+    // divisors of per_day = 2^a 3^b 5^c
+    let mut p2 = 1i128;
+    while per_day % p2 == 0 {
+        let mut p3 = 1i128;
+        while per_day % (p2 * p3) == 0 {
+            let mut p5 = 1i128;
+            while per_day % (p2 * p3 * p5) == 0 {
+                let d = p2 * p3 * p5;
+                if d <= 1_000_000_000 {
+                    v.push(d as u32);
+                }
+                p5 *= 5;
+            }
+            p3 *= 3;
+        }
+        p2 *= 2;
+    }
+    v.sort();
+    v
+}
+
+/// value near a multiple of q inside [lo, hi]: multiple, +-1, tie, tie+-1, random
+fn near_multiple(q: i128, lo: i128, hi: i128) -> BoxedStrategy<i128> {
+    let kmin = lo.div_euclid(q);
+    let kmax = hi.div_euclid(q);
+    let deltas: Vec<i128> = vec![0, 1, -1, q / 2, q / 2 + 1, q / 2 - 1, (q + 1) / 2, 2, q - 1];
+    prop_oneof![
+        4 => (kmin..=kmax, proptest::sample::select(deltas)).prop_map(move |(k, d)| (k * q + d).clamp(lo, hi)),
+        1 => (lo..=hi),
+    ]
+    .boxed()
+}
+
+fn time_unit() -> BoxedStrategy<U> {
+    gen::unit_in(4, 9)
+}
+
+fn pub_case() -> BoxedStrategy<PubCase> {
+    let base = PubCase { op: Op::TimeRound, a: 0, a_day: 0, b: 0, b_day: 0, unit: U::Second, inc: 1, mode: Mode::Trunc, digits: None, offset_min: 0 };
+    // (unit, inc) admissible for plain rounding / differences
+    let unit_inc = time_unit().prop_flat_map(|u| (Just(u), proptest::sample::select(incs_for(u))));
+    let b1 = base.clone();
+    let time_round = (unit_inc.clone(), gen::mode()).prop_flat_map(move |((u, inc), m)| {
+        let b = b1.clone();
+        near_multiple(inc as i128 * u.ns(), 0, DAY - 1).prop_map(move |a| PubCase { op: Op::TimeRound, a, unit: u, inc, mode: m, ..b.clone() })
+    });
+    let b2 = base.clone();
+    let dt_unit_inc = prop_oneof![4 => unit_inc.clone(), 1 => Just((U::Day, 1u32))];
+    let dt_round = (dt_unit_inc, gen::mode(), gen::day()).prop_flat_map(move |((u, inc), m, day)| {
+        let b = b2.clone();
+        near_multiple(inc as i128 * u.ns(), 0, DAY - 1)
+            .prop_map(move |a| PubCase { op: Op::DateTimeRound, a, a_day: day, unit: u, inc, mode: m, ..b.clone() })
+            .prop_filter("in range", |c| datetime_in_range(c.a_day, c.a))
+    });
+    let b3 = base.clone();
+    let inst_unit_inc = time_unit().prop_flat_map(|u| (Just(u), proptest::sample::select(instant_incs(u))));
+    let inst_round = (inst_unit_inc, gen::mode(), prop::bool::ANY).prop_flat_map(move |((u, inc), m, edge)| {
+        let b = b3.clone();
+        let q = inc as i128 * u.ns();
+        let (lo, hi) = if edge { (MAX_INSTANT - 3 * q.max(1_000_000), MAX_INSTANT) } else { (-MAX_INSTANT, MAX_INSTANT) };
+        prop_oneof![near_multiple(q, lo, hi), near_multiple(q, -hi, -lo), near_multiple(q, -4 * q, 4 * q)]
+            .prop_map(move |a| PubCase { op: Op::InstantRound, a, unit: u, inc, mode: m, ..b.clone() })
+    });
+    let b4 = base.clone();
+    let time_diff = (unit_inc.clone(), gen::mode(), gen::ns_of_day(), prop::bool::ANY).prop_flat_map(move |((u, inc), m, a, since)| {
+        let b = b4.clone();
+        let q = inc as i128 * u.ns();
+        // choose the difference near a multiple, then derive b
+        near_multiple(q, -(DAY - 1), DAY - 1).prop_map(move |diff| {
+            let bb = (a + diff).clamp(0, DAY - 1);
+            PubCase { op: if since { Op::TimeSince } else { Op::TimeUntil }, a, b: bb, unit: u, inc, mode: m, ..b.clone() }
+        })
+    });
+    let b5 = base.clone();
+    let inst_diff = (unit_inc.clone(), gen::mode(), gen::instant_ns(), prop::bool::ANY, prop::bool::ANY).prop_flat_map(move |((u, inc), m, a, since, far)| {
+        let b = b5.clone();
+        let q = inc as i128 * u.ns();
+        let span = if far { 2 * MAX_INSTANT } else { 1000 * q.max(1_000_000_000) };
+        near_multiple(q, -span, span).prop_map(move |diff| {
+            let bb = (a + diff).clamp(-MAX_INSTANT, MAX_INSTANT);
+            PubCase { op: if since { Op::InstantSince } else { Op::InstantUntil }, a, b: bb, unit: u, inc, mode: m, ..b.clone() }
+        })
+    });
+    let b6 = base.clone();
+    let dt_diff = (unit_inc.clone(), gen::mode(), gen::datetime(), prop::bool::ANY).prop_flat_map(move |((u, inc), m, (ad, a), since)| {
+        let b = b6.clone();
+        let q = inc as i128 * u.ns();
+        near_multiple(q, -40 * DAY, 40 * DAY)
+            .prop_map(move |diff| {
+                let t = ad as i128 * DAY + a + diff;
+                let (bd, bn) = (t.div_euclid(DAY) as i64, t.rem_euclid(DAY));
+                PubCase { op: if since { Op::DateTimeSince } else { Op::DateTimeUntil }, a, a_day: ad, b: bn, b_day: bd, unit: u, inc, mode: m, ..b.clone() }
+            })
+            .prop_filter("in range", |c| datetime_in_range(c.b_day, c.b))
+    });
+    // strings: digits 0..=9 or a smallest unit
+    let prec = prop_oneof![(0u8..=9).prop_map(|d| (Some(d), U::Nanosecond)), proptest::sample::select(vec![U::Minute, U::Second, U::Millisecond, U::Microsecond, U::Nanosecond]).prop_map(|u| (None, u))];
+    let b7 = base.clone();
+    let strings = (prec, gen::mode(), 0u8..5, gen::day(), gen::instant_ns(), -1439i32..=1439).prop_flat_map(move |((digits, u), m, which, day, inst, off)| {
+        let b = b7.clone();
+        let tmp = PubCase { digits, unit: u, ..b.clone() };
+        let q = fmt::prec_increment(string_prec(&tmp));
+        let op = [Op::TimeString, Op::DateTimeString, Op::InstantString, Op::ZonedString, Op::DurationString][which as usize];
+        let strat: BoxedStrategy<i128> = match op {
+            Op::TimeString | Op::DateTimeString => near_multiple(q, 0, DAY - 1),
+            Op::DurationString => near_multiple(q, -4_000_000_000_000_000, 4_000_000_000_000_000),
+            _ => {
+                let centre = inst;
+                near_multiple(q, (centre - 5 * q).max(-MAX_INSTANT), (centre + 5 * q).min(MAX_INSTANT))
+            }
+        };
+        strat
+            .prop_map(move |a| PubCase { op, a, a_day: day, unit: u, digits, mode: m, offset_min: if op == Op::ZonedString { off } else { 0 }, ..b.clone() })
+            .prop_filter("in range", |c| c.op != Op::DateTimeString || datetime_in_range(c.a_day, c.a))
+    });
+    prop_oneof![
+        3 => time_round.boxed(),
+        3 => dt_round.boxed(),
+        3 => inst_round.boxed(),
+        2 => time_diff.boxed(),
+        2 => inst_diff.boxed(),
+        2 => dt_diff.boxed(),
+        5 => strings.boxed(),
+    ]
+    .boxed()
+}
+
+pub fn run(ctx: &mut Ctx) {
+    ctx.rule = "hook: exhaustive grid of the internal increment rounder (i128: q in 1..=64 and {100,125,250,500,1000,60e9,3600e9,86400e9}, x in -3q-2..=3q+2 resp. k*q+{0,+-1,q/2,q/2+-1,..}; f64: q in 1..=64, x = k/1, k/2, k/4) x 9 modes against exact rational rounding. public: PlainTime/PlainDateTime/Instant round, until/since with smallestUnit+increment+mode (time largest unit), toString with fractionalSecondDigits 0..9 or smallestUnit on PlainTime/PlainDateTime/Instant/ZonedDateTime(fixed offsets)/Duration; every admissible (unit, increment) is drawn uniformly; values are k*q + {0,+-1,tie,tie+-1,...} or uniform. oracle: exact integer RoundNumberToIncrement; plus the mode-free neighbour invariant. non-trivial = value not a multiple of the increment (classes: tie, tie+-1, off-multiple, odd-increment, negative).".into();
+    ctx.assumptions = vec!["since(a,b,mode) == round(a-b, mode) is the reading of 'since applies the mode as if negated' (negate, round other-this, negate back)".into()];
+    let cases = hook_cases();
+    let n = cases.len() as u64;
+    ctx.run_enum(&HookSub, n, &|i| cases[i as usize].clone(), true);
+    ctx.run_prop(&PubSub, &pub_case, ctx.tier.pick(2_000_000, 60_000_000));
+}
+
+pub fn replay(ctx: &mut Ctx, sub: &str, case: &Value) -> bool {
+    match sub {
+        "hook" => ctx.replay_case(&HookSub, case),
+        "public" => ctx.replay_case(&PubSub, case),
+        _ => false,
+    }
+}
+
+#[allow(dead_code)]
+fn _units() -> [U; 10] {
+    UNITS
 }
